@@ -195,6 +195,9 @@ pub fn run_check(replay: Option<Value>) -> i32 {
                         continue;
                     }
                     let yl = s.y.last().unwrap();
+                    if (s.t.last().unwrap() - fam.span).abs() > 1e-12 * fam.span {
+                        viols.push(("not-at-xend".into(), format!("k={:e}: Success but the last sample is at t={:e}, xend={:e}", k, s.t.last().unwrap(), fam.span)));
+                    }
                     let mut err = f64::NAN;
                     if let Some(ex) = p.exact(0.0, &p.y0, fam.span) {
                         // worst error over all samples past the initial transient
@@ -288,6 +291,9 @@ pub fn run_check(replay: Option<Value>) -> i32 {
             match &r.out {
                 Outcome::Ok(s) if s.status == Status::Success => {
                     let yl = s.y.last().unwrap();
+                    if (s.t.last().unwrap() - span).abs() > 1e-12 * span {
+                        viols.push(("not-at-xend".into(), format!("rtol={:e}: Success but the last sample is at t={:e}, xend={:e}", rtol, s.t.last().unwrap(), span)));
+                    }
                     let ynorm = yref.iter().fold(0.0f64, |a, v| a.max(v.abs()));
                     let e = yl.iter().zip(&yref).fold(0.0f64, |a, (u, v)| a.max((u - v).abs())) / (atol + rtol * ynorm);
                     errs.push(e);
